@@ -11,14 +11,14 @@ ID = "C10"
 LEVEL = "exploration"
 TECHNIQUE = "runtime monitoring on a simulated network: exhaustive single-message reaction table plus random message sequences against the real MessageManager/TokenManager; oracle = explicit expected-reaction table over the wire log, misfits judged by non-interference"
 LEVEL_TEXT = "The complete single-message table is executed (exhaustive over the listed classes) and random sequences of table cells are run; each observed reaction datagram (type, MID relation, code, token, virtual time) must equal the table's prediction."
-LEVEL_NOTE = "Trusted: harness/simnet.py, refcodec.py, the expected-reaction table in checks/c10.py (each row cites the property statement). Multicast pings/CON requests, class 3.xx codes and matching-MID non-empty ACK/RST are not judged (unspecified by the statement)."
+LEVEL_NOTE = "Trusted: harness/simnet.py, refcodec.py, the expected-reaction table in checks/c10.py (each row cites the property statement). Multicast pings/CON requests and class 3.xx codes are not judged (unspecified by the statement)."
 RULE = (
     "one case = one raw datagram (or a sequence of 3-7) sent to an aiocoap node that has a site and possibly an outstanding request; cell = (type, code, token known?, "
     "unicast/multicast, handler delay, No-Response, handler result code). Non-trivial = every cell (each has a distinct predicted reaction or predicted silence); "
     "distinct = distinct cell tuples / distinct sequence shapes"
 )
 ASSUMPTIONS = ["EMPTY_ACK_DELAY is 0.1 s (read from the library at run time)", "simulated one-way latency 1 ms"]
-REQUIRED_MONITORS = {"table_cell": 500, "table_cell_busy_peer": 100, "mid_boundary": 100, "duplicate_delivery": 100, "token_reuse": 50, "con_never_to_multicast": 500, "sequence": 50, "noninterference": 50}
+REQUIRED_MONITORS = {"table_cell": 500, "table_cell_busy_peer": 100, "mid_boundary": 100, "duplicate_delivery": 100, "token_reuse": 50, "misfit_same_mid": 10, "con_never_to_multicast": 500, "sequence": 50, "noninterference": 50}
 EXHAUSTIVE = {"single_message_table": "types x codes x token known/unknown x unicast/multicast x delays x No-Response x result class as enumerated by cells()"}
 
 CON, NON, ACK, RST = 0, 1, 2, 3
@@ -176,7 +176,7 @@ class Node:
         def on_msg(peer, src, m, raw):
             if m is None:
                 return
-            if m.type == rc.CON and m.code != 0 and m.token not in self.busy_tokens:
+            if m.type == rc.CON and m.code != 0 and m.token not in self.busy_tokens and not getattr(self, "hold", False):
                 # auto-acknowledge whatever the node sends confirmably
                 peer.send(src, rc.Msg(rc.ACK, 0, m.mid, b"", (), b""))
             if rc.is_request(m.code) and m.token not in self.known_tokens:
@@ -564,6 +564,15 @@ def run_shard(shard, rep, only=None):
         if only is not None and only != case:
             continue
         run_token_reuse(spec, shard["seed"] * 31 + j, rep, case)
+    # ---- misfits bearing the message ID of a request in flight ---------------------------------
+    for j, mis in enumerate([(ACK, 1), (ACK, 2), (ACK, 31), (ACK, 32), (ACK, 192), (ACK, 225), (RST, 1), (RST, 69), (RST, 132), (RST, 200)]):
+        if j % of != idx % 10 and of > 10:
+            if j != idx % 10:
+                continue
+        case = ["misfit-same-mid", j]
+        if only is not None and only != case:
+            continue
+        run_misfit_same_mid(mis, shard["seed"] * 13 + j, rep, case)
     # ---- targeted: aiocoap as sender towards multicast -----------------------------------
     case = ["mc-send"]
     if only is None or only == case:
@@ -637,7 +646,7 @@ def run_poison(mis, seed, rep, case):
 
 
 def run_token_reuse(spec, seed, rep, case):
-    """Two or three confirmable requests that carry the same token under different message IDs, in quick succession
+    """Two or three requests (confirmable, or one of them non-confirmable) that carry the same token under different message IDs, in quick succession
     (a client that abandons a request and reuses its token, or one that uses the empty token throughout). Whether
     the abandoned request is still answered is not judged; the message layer owes each of them exactly one ACK
     under its own message ID, at the latest at EMPTY_ACK_DELAY after it arrived."""
@@ -646,7 +655,8 @@ def run_token_reuse(spec, seed, rep, case):
     from aiocoap.numbers.constants import TransportTuning
 
     ead = TransportTuning().EMPTY_ACK_DELAY
-    token, gaps, delays = spec
+    token, gaps, delays = spec[:3]
+    types = spec[3] if len(spec) > 3 else (rc.CON,) * len(gaps)
     box = {}
 
     async def main(loop):
@@ -656,7 +666,7 @@ def run_token_reuse(spec, seed, rep, case):
         at = 0.0
         for k, (gap, d) in enumerate(zip(gaps, delays)):
             at += gap
-            m = rc.Msg(rc.CON, 1, 0x4100 + k, token, ((11, b"r"),), b"d=%s;c=69;p=x" % repr(d).encode())
+            m = rc.Msg(types[k], 1, 0x4100 + k, token, ((11, b"r"),), b"d=%s;c=69;p=x%d" % (repr(d).encode(), k))
             loop.call_at(t0 + at, node.peer.send, node.S, m)
             sent.append((m, t0 + at + 0.001))
         await asyncio.sleep(at + 5.0)
@@ -674,6 +684,12 @@ def run_token_reuse(spec, seed, rep, case):
     node = box["node"]
     rep.monitor("token_reuse")
     for m, t_arr in box["sent"]:
+        if m.type == rc.NON:
+            # a non-confirmable request is never acknowledged; whatever answers it is not an ACK
+            bad = [e for e in node.net.log if e.kind == "send" and e.src != node.P and e.msg is not None and ((e.msg.mid == m.mid and e.msg.type == rc.ACK) or (e.msg.type == rc.ACK and e.msg.payload == b"x%d" % (m.mid - 0x4100)))]
+            if bad:
+                rep.violation("token-reuse/non-request-acknowledged", "a non-confirmable request that re-used the token of a confirmable one still waiting for its acknowledgement was answered with an ACK", {"spec": repr(spec), "events": [e.brief() for e in bad[:2]], "wire": node.net.dump(30)}, case)
+            continue
         acks = []
         seen = set()
         for e in node.net.log:
@@ -681,6 +697,10 @@ def run_token_reuse(spec, seed, rep, case):
                 seen.add(e.data)
                 acks.append((round(e.t - t_arr, 6), e.msg.type, e.msg.code))
         ok = len(acks) == 1 and acks[0][1] == rc.ACK and acks[0][0] <= ead + 2e-6
+        # ... and if that ACK carries a response, it is this request's own (its handler echoes the request's index)
+        own = [e for e in node.net.log if e.kind == "send" and e.src != node.P and e.msg is not None and e.msg.mid == m.mid and e.msg.type == rc.ACK and e.msg.code != 0 and e.msg.payload != b"x%d" % (m.mid - 0x4100)]
+        if own:
+            rep.violation("token-reuse/acknowledged-with-another-requests-response", "a confirmable request was acknowledged by a piggy-backed response that answers another request", {"spec": repr(spec), "event": own[0].brief(), "wire": node.net.dump(30)}, case)
         if not ok:
             rep.violation(
                 "token-reuse/%s" % ("never-acknowledged" if not acks else "acknowledged-more-than-once" if len(acks) > 1 else "acknowledged-wrongly"),
@@ -703,7 +723,65 @@ def token_reuse_specs():
                     out.append((token, (0.0, gap), (d1, d2)))
         out.append((token, (0.0, 0.01, 0.01), (0.3, 0.3, 0.0)))
         out.append((token, (0.0, 0.05, 0.2), (2.0, 0.05, 0.3)))
+        # the token is re-used by a NON request while the CON one's piggy-back window is open, and the other way round
+        for gap in (0.0, 0.01, 0.05, 0.15):
+            for d1, d2 in ((0.3, 0.0), (2.0, 0.0), (0.3, 0.05), (0.0, 0.0)):
+                out.append((token, (0.0, gap), (d1, d2), (CON, NON)))
+                out.append((token, (0.0, gap), (d1, d2), (NON, CON)))
     return out
+
+
+def run_misfit_same_mid(mis, seed, rep, case):
+    """A message whose code and type do not fit (an ACK or Reset carrying a request code, an ACK carrying a reserved
+    code, a Reset carrying a response code) that bears the message ID of a confirmable request the node has in
+    flight: it is to be ignored, so the exchange stays open (retransmissions go on), the request neither completes nor
+    fails, and the genuine acknowledgement later on does its work."""
+    from harness import scenario, refcodec as rc
+    import asyncio
+    import aiocoap
+
+    typ, code = mis
+    box = {}
+
+    async def main(loop):
+        node = await Node(loop).start(0)
+        node.hold = True
+        r = node.srv.request(aiocoap.Message(code=aiocoap.GET, uri="coap://10.0.0.2/held"), handle_blockwise=False)
+        await asyncio.sleep(0.3)
+        reqs = [e for e in node.net.log if e.kind == "deliver" and e.dst == node.P and e.msg is not None and rc.is_request(e.msg.code)]
+        if not reqs:
+            box["inconc"] = "the node's request never reached the peer"
+            return True
+        q = reqs[0].msg
+        t_mis = loop.time()
+        node.peer.send(node.S, rc.Msg(typ, code, q.mid, q.token if code else b"", (), b"misfit" if code else b""))
+        await asyncio.sleep(6.0)
+        state = ("done", repr(r.response.exception()) if r.response.exception() else "response") if r.response.done() else ("pending", None)
+        node.peer.send(node.S, rc.Msg(rc.ACK, rc.c(2, 5), q.mid, q.token, (), b"real"))
+        await asyncio.sleep(1.0)
+        final = None
+        if r.response.done():
+            final = repr(r.response.exception()) if r.response.exception() else bytes(r.response.result().payload)
+        box.update(node=node, q=q, t_mis=t_mis, state=state, final=final, t_first=reqs[0].t)
+        await node.stop()
+        return True
+
+    res = scenario.run(main, seed)
+    if "inconc" in box or not res.ok:
+        rep.inconc("misfit-same-mid scenario: %s" % (box.get("inconc") or (res.hang, res.error),))
+        return
+    node, q = box["node"], box["q"]
+    rep.monitor("misfit_same_mid")
+    copies = [e.t for e in node.net.log if e.kind == "send" and e.src == node.S and e.msg is not None and e.msg.mid == q.mid and rc.is_request(e.msg.code)]
+    key = "%s-%s" % ("ACK" if typ == ACK else "RST", "request-code" if 1 <= code <= 31 else "response-code" if 64 <= code <= 191 else "reserved-code")
+    w = dict(misfit=(typ, code), copies=[round(t, 4) for t in copies], state_after_6s=box["state"], final=repr(box["final"]), wire=node.net.dump(20))
+    if box["state"][0] != "pending":
+        rep.violation("misfit-not-ignored/same-mid/%s/request-ended" % key, "a message whose code and type do not fit, bearing the message ID of a request in flight, ended that request", w, case)
+    elif len(copies) < 2:
+        rep.violation("misfit-not-ignored/same-mid/%s/retransmission-stopped" % key, "a message whose code and type do not fit, bearing the message ID of a request in flight, stopped its retransmission", w, case)
+    elif box["final"] != b"real":
+        rep.violation("misfit-not-ignored/same-mid/%s/genuine-ack-lost" % key, "after a misfit message the genuine piggy-backed response did not complete the request", w, case)
+    rep.case(("misfit-same-mid", typ, code), nontrivial=True)
 
 
 def run_mc_send(seed, rep, case):
